@@ -14,6 +14,9 @@ TRUSTED = [
     "tied on every run by hx_mheap (result kind, value and bytes_allocated() after every step of every history)",
     "usize = u64 = 64 bits; the system allocator never fails for requests that passed ensure_heap_capacity / MAX_ALLOC "
     "(vec![..; n] is modelled as always succeeding: allocation failure is C10's subject)",
+    "hook ManualHeap::verif_set_bytes_allocated (cfg vbxq_aelys_lang_verif, /repo 4e9342e) overwrites the charge in the `forged` "
+    "scenarios only, to reach alloc's checked_add failure; those start from a state outside the invariant by construction "
+    "(the theorems do not speak about them; they are regression ties for fix f05dd1f)",
     "the GC-heap term of ensure_heap_capacity is a free parameter of every theorem; the tie keeps requests out of the "
     "interval where it matters (sizes <= 8 slots or > max_heap_bytes/8)",
     "floats are bit patterns: f64 accessors move the pattern, f32 accessors go through hand-written f64->f32 (round to nearest even) "
@@ -78,8 +81,8 @@ def run(ctx):
         ctx.log(out[-2000:])
         return
     quick = ctx.tier == "quick"
-    plan = {"api": 400, "builtin": 250, "opcode": 350, "bytes": 500} if quick else \
-           {"api": 1200, "builtin": 500, "opcode": 800, "bytes": 1200}
+    plan = {"api": 400, "forged": 200, "builtin": 250, "opcode": 350, "bytes": 500} if quick else \
+           {"api": 1200, "forged": 1500, "builtin": 500, "opcode": 800, "bytes": 1200}
     maxlen = 200 if quick else 400
     profiles = ["dev"] if quick else ["dev", "release"]
     total, nontrivial, steps = 0, set(), 0
@@ -174,7 +177,7 @@ def run(ctx):
     ctx.cov["rule"] = ("one case = one seeded operation history (length 1..%d; 80%% valid operations over a live set of <= 6 buffers, "
                        "20%% malformed: stale / never-issued / huge / negative / non-int handles, zero / huge / negative sizes, offsets at, "
                        "past and far past the end, width-straddling offsets) run step by step on the real implementation "
-                       "(ManualHeap API; builtins as first-class natives; opcodes 28..33 at top level and inside @no_gc functions; "
+                       "(ManualHeap API, plus forged-charge scenarios near usize::MAX; builtins as first-class natives; opcodes 28..33 at top level and inside @no_gc functions; "
                        "std.bytes natives) with result kind, value and bytes_allocated() compared against the Coq model after every step, "
                        "and the whole live state compared against a reference map of arrays after every step; "
                        "distinct_nontrivial = distinct histories with at least 4 operations" % maxlen)
